@@ -37,8 +37,13 @@ let timeouts = ref 0
 let case_timeout = try int_of_string (Sys.getenv "VERIF_CASE_TIMEOUT") with _ -> 20
 (* the watchdog counts CPU time of this process (ITIMER_VIRTUAL), not wall-clock time, so
    that it does not depend on the load of the machine; the exact rational solver of the
-   "prank" channel gets a larger budget *)
-let timeout_of chan = float_of_int (if chan = "prank" then 6 * case_timeout else case_timeout)
+   "prank" channel gets a larger budget, and so do the two channels that sort up to a
+   million inductive numbers with the extracted merge sort (measured: at most about 15 s
+   of CPU for a case of 1 000 003 nodes) *)
+let timeout_of chan =
+  float_of_int (if chan = "prank" then 6 * case_timeout
+                else if chan = "sccbig" || chan = "llpbig" then 10 * case_timeout
+                else case_timeout)
 let set_timer secs =
   ignore (Unix.setitimer Unix.ITIMER_VIRTUAL { Unix.it_interval = 0.0; Unix.it_value = secs })
 
